@@ -117,3 +117,29 @@ Definition survivors (A : Arith.tables) (T : Offsets.otable) (TT : BuildIAT.ttab
     (hd : bytes -> hdrp) (sp : bytes -> stdp) (ip : bytes -> ipay) (ap : bytes -> apay) (all : list batch)
     : list FileCreateAll.sbatch * list BuildIAT.ibatch :=
   add_all A T TT hd sp ip ap (map sort_entries (sort_by num_ltb all)).
+
+(* ------------------------------------------------------------------ what the phase-7 correspondence compares *)
+
+(* for every IAT batch AddToFile adds to the new file (file order): the Arith skeleton the validator
+   sees and the validator's verdict *)
+Definition iat_views (A : Arith.tables) (TT : BuildIAT.ttable) (hd : bytes -> hdrp) (ip : bytes -> ipay) (iq : bytes -> iqpay)
+    (all : list batch) : list (Arith.batch * bool) :=
+  flat_map (fun x => match b_kind x with
+                     | Flatten.KIAT => match create_iat TT hd ip x with
+                                       | Some b' => [(iat_skeleton hd iq x b', iat_validate A hd iq x b')]
+                                       | None => []
+                                       end
+                     | Flatten.KStd => []
+                     end) (map sort_entries (sort_by num_ltb all)).
+
+Definition iat_views_stable A TT hd ip iq (inp : list batch) : list (Arith.batch * bool) :=
+  iat_views A TT hd ip iq (all_batches (run (sort_by count_ltb inp))).
+
+Definition iat_views_hint A TT hd ip iq (inp : list batch) (hint : list nat) : option (list (Arith.batch * bool)) :=
+  if perm_hintb (length inp) hint && sorted_countb (apply_hint inp hint)
+  then Some (iat_views A TT hd ip iq (all_batches (run (apply_hint inp hint))))
+  else None.
+
+(* IATBatch.Create on one batch: the skeleton of what it leaves, None = error *)
+Definition create_iat_view A TT hd ip iq (x : batch) : option Arith.batch :=
+  match create_iat_v A TT hd ip iq x with Some b' => Some (iat_skeleton hd iq x b') | None => None end.
